@@ -375,7 +375,7 @@ def step (d : D) (line : String) : D × String :=
     | _, _ => (d, "bad-op\tbad-op\tbad-op")
   | ["cquery", kind, idx, stale, reply] =>
     -- a colour query: the real QueryColor/QueryForeground/QueryBackground against a terminal that answers with
-    -- `reply`, after an unsolicited `stale` reply; prediction = LTS run + the Sscanf model
+    -- `reply`, after an unsolicited `stale` reply; prediction = LTS run + the model of parseColorReply
     match idx.toNat?, cps? ((stale.drop 6).toString), cps? ((reply.drop 6).toString) with
     | some idx, some stalePl, some replyPl =>
       let p := params 1024 none
@@ -433,7 +433,7 @@ def step (d : D) (line : String) : D × String :=
               else if stale != "stale=-" && implRes != res then s!"FAIL the terminal answered this query with colour {w}, the query returned {implRes}"
               else if stale != "stale=-" && implRes != s!"col={VaxisModel.Model.InputQuery.colorOfReply lit replyPl}" then
                 s!"FAIL the terminal answered this query with colour {w}, but the query returned {implRes}: the unsolicited reply received earlier was taken for the answer"
-              else s!"FAIL the terminal answered this query with colour {w} (XParseColor scaling of the digits sent), the query returned {implRes}: channels wider or narrower than 8 bits are cut to their low byte"
+              else s!"FAIL the terminal answered this query with colour {w} (XParseColor scaling of the digits sent), the query returned {implRes}: channels wider or narrower than 8 bits are cut to their low byte (F303 is back)"
             | none => "ok"
         ({ d with sys := s3 }, s!"{res} alive {canonState s3}\t{impl}\t{v}")
     | _, _, _ => (d, "bad-op\tbad-op\tbad-op")
